@@ -704,14 +704,17 @@ class Point:
                     elif name == 'float_eps': v = complex(2.220446049250313e-16)
                     elif name.startswith('float_lognat'): v = complex(709.0)
                     else:
-                        mag = 10 ** orng.uniform(-9, 9)
+                        # magnitudes: a mixture of ordinary values and of very small / very large ones, so that guards on extreme values (<= float_eps, >= 1e8, ...)
+                        # are entered at a fair share of the sample points and not once in a blue moon
+                        u_ = orng.random()
+                        mag = 10 ** (orng.uniform(-3, 3) if u_ < 0.4 else (orng.uniform(-20, -3) if u_ < 0.7 else orng.uniform(3, 20)))
                         if kind == 'pos':
                             sgn = 1.0
                         else:
                             gv = self.atom_value(x)
                             sgn = float(legendre(gv[0])) if (gv[1] == 0 and gv[0] != 0) else orng.choice((1.0, -1.0))       # the same sign the field value carries
                             if gv == (0, 0): mag = 0.0
-                        v = complex(sgn * mag, (orng.choice((1.0, -1.0)) * 10 ** orng.uniform(-9, 9)) if kind == 'complex' else 0.0)
+                        v = complex(sgn * mag, (orng.choice((1.0, -1.0)) * mag * 10 ** orng.uniform(-2, 2)) if kind == 'complex' else 0.0)
                 else:
                     v = complex(r.uniform(0.3, 1.7), r.uniform(0.2, 0.9) if kind == 'complex' else 0.0)
                 self.fatom[name] = v
